@@ -224,8 +224,9 @@ def run(ctx):
     removals = removal_fns(prog)
     tree_acc = {p: a for p, a in prog.accessors.items() if a['fn'].body.locals[2]['ty'] == 'u32'}
     n_sites = 0
-    if len(removals) < 3:
-        ctx.anchor_missing(RULE, 'removal transactions of the three trees', PROPS_OTHER, len(removals), 3)
+    for fam in ('map', 'set', 'key'):
+        if not any(p.startswith(fam + '::') for p in removals):
+            ctx.anchor_missing(RULE, 'removal transaction of the %s tree' % fam, PROPS_OTHER, 0, 1)
     for fn in prog.fns.values():
         if fn.is_closure or fn.path in removals:
             continue
